@@ -19,6 +19,11 @@ Theorem C17_list_total : forall t pre init lines, fst (run_list t pre init lines
 Proof. exact run_list_no_panic. Qed.
 Print Assumptions C17_list_total.
 
+(* the stagemaker pipeline from the user lists on (with AddMissingStageDirs) *)
+Theorem C17_proc_total : forall t pre lines, fst (run_proc t pre lines) <> LsPanic.
+Proof. exact run_proc_no_panic. Qed.
+Print Assumptions C17_proc_total.
+
 (* ---- names and option values survive quoting and backslash escaping unchanged ---- *)
 (* for every list of fields (tokens: any byte but NUL, escaped and wildcard asterisks), each
    written bare with backslashes, in single or in double quotes, separated by any blank runs *)
@@ -80,9 +85,15 @@ Theorem C17_gmatch_spec : forall p s, gmatch p s = true <-> gm p s.
 Proof. exact gmatch_spec. Qed.
 Print Assumptions C17_gmatch_spec.
 
-Theorem C17_wildcard_omit : forall t l e ms, e_wild e = true -> glob t (e_name e) = GOk ms ->
+(* omit: the matching entries are the MEMBERS of the list whose name matches the pattern as
+   written (path.Match: a star stands for any run of bytes without a slash) *)
+Theorem C17_pmatch_spec : forall p s, pmatch p s = true <-> gmp p s.
+Proof. exact pmatch_spec. Qed.
+Print Assumptions C17_pmatch_spec.
+
+Theorem C17_wildcard_omit : forall t l e p, e_wild e = true -> gtokens (e_name e) = GPat p ->
   exists l', remove_files t l e = AOk l' /\
-             forall x, In x (names l') <-> (In x (names l) /\ ~ In x ms).
+             forall x, In x (names l') <-> (In x (names l) /\ pmatch p x = false).
 Proof. exact wildcard_omit. Qed.
 Print Assumptions C17_wildcard_omit.
 
